@@ -33,6 +33,7 @@ open SqiGen.L{l}
 #eval IO.println s!"L{l} action I2={{Mat2.eqMod (2 ^ D_POWER_OF_2) (Mat2.mul W64.ACTION_I W64.ACTION_I) (Mat2.scalar (-1))}} J2={{Mat2.eqMod (2 ^ D_POWER_OF_2) (Mat2.mul W64.ACTION_J W64.ACTION_J) (Mat2.scalar (-(FP_p : Int)))}} IJ={{Mat2.eqMod (2 ^ D_POWER_OF_2) (Mat2.mul W64.ACTION_I W64.ACTION_J) W64.ACTION_K}} G2={{Mat2.eqMod (2 ^ D_POWER_OF_2) W64.ACTION_GEN2 W64.ACTION_I}} G3={{Mat2.eqMod (2 ^ D_POWER_OF_2) (Mat2.smul 2 W64.ACTION_GEN3) (Mat2.add W64.ACTION_I W64.ACTION_J)}} G4={{Mat2.eqMod (2 ^ D_POWER_OF_2) (Mat2.smul 2 W64.ACTION_GEN4) (Mat2.add (Mat2.scalar 1) W64.ACTION_K)}}"
 #eval IO.println s!"L{l} NQR_TABLE bad={{(W64.NQR_TABLE.zipIdx).filterMap fun (x, i) => if Fp2N.isSquare FP_p x then some i else none}}"
 #eval IO.println s!"L{l} Z_NQR_TABLE bad={{(W64.Z_NQR_TABLE.zipIdx).filterMap fun (z, i) => if Fp2N.isSquare FP_p z && !Fp2N.isSquare FP_p (Fp2N.sub FP_p z (FP_ONE, 0)) then none else some i}}"
+#eval IO.println s!"L{l} fact actionI_geometric={{Fp2N.actionAgrees FP_p W64.CURVE_E0.1 W64.CURVE_E0.2 D_POWER_OF_2 W64.ACTION_I (Fp2N.negX FP_p) W64.BASIS_EVEN}} actionJ_geometric={{Fp2N.actionAgrees FP_p W64.CURVE_E0.1 W64.CURVE_E0.2 D_POWER_OF_2 W64.ACTION_J (Fp2N.conjX FP_p) W64.BASIS_EVEN}}"
 #eval IO.println s!"L{l} BASIS_EVEN bad={{(W64.BASIS_EVEN.zipIdx).filterMap fun (P, i) => if Fp2N.exactOrder2f FP_p W64.CURVE_E0.1 W64.CURVE_E0.2 D_POWER_OF_2 P then none else some i}}"
 end
 '''
@@ -64,7 +65,7 @@ def search(ctx):
 def run(ctx):
     ctx.trusted += ["tools/translate/tables.py (regex/brace extraction of C initialisers)",
                     "C compiler's reading of the same initialisers (zero-fill of short rows modelled explicitly)"]
-    ok = vlib.proof_stage(ctx, ["SqiProps.C18"], searcher=lambda: search(ctx))
+    ok = vlib.proof_stage(ctx, ["SqiProps.C18", "SqiProps.C18L1", "SqiProps.C18L3", "SqiProps.C18L5", "SqiProps.C18Common"], searcher=lambda: search(ctx))
     # coverage statistics: count table entries the theorems range over
     n = 0
     for l in (1, 3, 5):
